@@ -1,7 +1,500 @@
-//! C05 harness module (not implemented yet).
+//! C05: Endemic base OT. Real EndemicOTReceiver::{new,process} / EndemicOTSender::process vs the
+//! extracted model (coq/Model/Endemic.v) with real merlin/k256 behind the model's oracles.
+//!
+//! Per tape ("case"): honest run; the two sides under different session ids; message 1 substituted
+//! from another session; message 2 substituted from another session; messages with undecodable
+//! (and with replaced but decodable) points.  Compared with the model: both messages byte for byte,
+//! the 512 sender keys, the 256 receiver keys, the choice bits, the Ok/Err verdicts.
+//! Implementation-only oracle: the property itself on the real outputs.
+use crate::oracle::*;
 use crate::util::*;
+use elliptic_curve::group::GroupEncoding;
+use elliptic_curve::{Field, Group};
+use k256::{ProjectivePoint, Scalar};
+use rand::{Rng, RngCore};
+use sl_oblivious::endemic_ot::{EndemicOTMsg1, EndemicOTMsg2, EndemicOTReceiver, EndemicOTSender};
+use sl_oblivious::verif_hooks::{receiver_choice_bits, receiver_output_parts, sender_output_keys};
+use std::io::Write;
+use std::panic::{catch_unwind, AssertUnwindSafe};
 
-pub fn run(_kv: &Args) -> i32 {
-    eprintln!("c05: not implemented");
-    2
+const N: usize = 256;
+const PB: usize = 33;
+
+/// receiver tape, replayed from the rng stream exactly as `EndemicOTReceiver::new` consumes it:
+/// `rng.gen::<[u8;32]>()`, then 256 x `Scalar::random`, then (inside the loop) 256 x `ProjectivePoint::random`.
+struct RecvTape {
+    stream: String,
+    bits: [u8; 32],
+    tas: Vec<Scalar>,
+    ros: Vec<ProjectivePoint>,
+}
+
+fn recv_tape(seed: u64, stream: &str) -> RecvTape {
+    let mut r = rng(seed, stream);
+    let bits: [u8; 32] = r.gen();
+    let tas: Vec<Scalar> = (0..N).map(|_| Scalar::random(&mut r)).collect();
+    let ros: Vec<ProjectivePoint> = (0..N).map(|_| ProjectivePoint::random(&mut r)).collect();
+    RecvTape { stream: stream.to_string(), bits, tas, ros }
+}
+
+/// the real receiver, round 1 (re-created whenever needed: `process` consumes it)
+fn real_recv_new(seed: u64, tape: &RecvTape, sid: &[u8]) -> (EndemicOTReceiver, Vec<u8>) {
+    let mut r = rng(seed, &tape.stream);
+    let mut msg1 = EndemicOTMsg1::default();
+    let recv = EndemicOTReceiver::new(sid, &mut msg1, &mut r);
+    (recv, bytemuck::bytes_of(&msg1).to_vec())
+}
+
+/// sender tape: per instance t_b_0 then t_b_1
+fn send_tape(seed: u64, stream: &str) -> Vec<Scalar> {
+    let mut r = rng(seed, stream);
+    (0..2 * N).map(|_| Scalar::random(&mut r)).collect()
+}
+
+struct SendRes {
+    msg2: Vec<u8>,
+    verdict: String,
+    keys: Vec<[[u8; 32]; 2]>,
+}
+
+fn real_send(seed: u64, stream: &str, sid: &[u8], msg1: &[u8]) -> SendRes {
+    let mut r = rng(seed, stream);
+    let mut m1 = EndemicOTMsg1::default();
+    bytemuck::bytes_of_mut(&mut m1).copy_from_slice(msg1);
+    let mut m2 = EndemicOTMsg2::default();
+    let res = catch_unwind(AssertUnwindSafe(|| EndemicOTSender::process(sid, &m1, &mut m2, &mut r)));
+    let msg2 = bytemuck::bytes_of(&m2).to_vec();
+    match res {
+        Ok(Ok(out)) => SendRes { msg2, verdict: "ok".into(), keys: sender_output_keys(&out) },
+        Ok(Err(_)) => SendRes { msg2, verdict: "err1".into(), keys: vec![] },
+        Err(_) => SendRes { msg2, verdict: "panic".into(), keys: vec![] },
+    }
+}
+
+struct RecvRes {
+    verdict: String,
+    bits: Vec<u8>,
+    keys: Vec<[u8; 32]>,
+}
+
+fn real_recv_process(seed: u64, tape: &RecvTape, sid: &[u8], msg2: &[u8]) -> RecvRes {
+    let (recv, _) = real_recv_new(seed, tape, sid);
+    let mut m2 = EndemicOTMsg2::default();
+    bytemuck::bytes_of_mut(&mut m2).copy_from_slice(msg2);
+    match catch_unwind(AssertUnwindSafe(|| recv.process(&m2))) {
+        Ok(Ok(out)) => {
+            let (b, k) = receiver_output_parts(&out);
+            RecvRes { verdict: "ok".into(), bits: b.to_vec(), keys: k }
+        }
+        Ok(Err(_)) => RecvRes { verdict: "err1".into(), bits: vec![], keys: vec![] },
+        Err(_) => RecvRes { verdict: "panic".into(), bits: vec![], keys: vec![] },
+    }
+}
+
+fn items(bytes: &[u8], sz: usize) -> String {
+    bytes.chunks(sz).map(hx).collect::<Vec<_>>().join(",")
+}
+fn scalars(l: &[Scalar]) -> String {
+    l.iter().map(hex_of_scalar).collect::<Vec<_>>().join(",")
+}
+fn unitems(s: &str) -> Vec<u8> {
+    if s == "-" { return vec![]; }
+    s.split(',').flat_map(unhx).collect()
+}
+fn bit(bits: &[u8], idx: usize) -> bool {
+    (bits[idx >> 3] >> (idx & 7)) & 1 == 1
+}
+fn first_diff(a: &[u8], b: &[u8], sz: usize) -> String {
+    if a.len() != b.len() {
+        return format!("lengths {} vs {}", a.len(), b.len());
+    }
+    for (i, (x, y)) in a.chunks(sz).zip(b.chunks(sz)).enumerate() {
+        if x != y {
+            return format!("item {i}: impl {} model {}", hx(x), hx(y));
+        }
+    }
+    "equal".into()
+}
+
+/// `decode_point` of endemic_ot.rs: `ProjectivePoint::from_bytes` (GroupEncoding) on a 33-byte array.
+/// NB: unlike SEC1 parsing, this accepts 33 zero bytes as the identity.
+fn real_decode(b: &[u8]) -> Option<ProjectivePoint> {
+    if b.len() != PB {
+        return None;
+    }
+    let mut repr = <ProjectivePoint as GroupEncoding>::Repr::default();
+    AsMut::<[u8]>::as_mut(&mut repr).copy_from_slice(b);
+    Option::<ProjectivePoint>::from(ProjectivePoint::from_bytes(&repr))
+}
+
+/// The model's `g_dec` is instantiated with the real decoding function of the protocol messages
+/// (overrides the SEC1-only `kdec` of oracle.rs, which rejects the zero-padded identity).
+fn extra_oracle(name: &str, a: &[&str]) -> Option<Vec<String>> {
+    match name {
+        "kdec" => Some(match real_decode(&unhx(a[0])) {
+            Some(p) => vec!["1".into(), point_hex(&p)],
+            None => vec!["0".into()],
+        }),
+        _ => None,
+    }
+}
+
+/// a 33-byte string that `decode_point` rejects
+fn undecodable(r: &mut impl RngCore, pattern: u32) -> [u8; PB] {
+    let mut b = [0u8; PB];
+    match pattern % 6 {
+        0 => { b[32] = 1; }                       // identity tag, not all zero
+        1 => { r.fill_bytes(&mut b); b[0] = 4; }  // uncompressed tag
+        2 => { b = [0xff; PB]; }
+        3 => { b = [0xff; PB]; b[0] = 2; }        // x >= p
+        4 => { r.fill_bytes(&mut b); b[0] = 0; }  // identity tag with garbage
+        _ => loop {                               // valid tag, x not on the curve
+            r.fill_bytes(&mut b);
+            b[0] = 2 + (b[0] & 1);
+            if real_decode(&b).is_none() { break; }
+        },
+    }
+    assert!(real_decode(&b).is_none());
+    b
+}
+
+struct Ctx {
+    drv: Driver,
+    seed: u64,
+    n_eval: u64,
+    n_mut: u64,
+    max_chain: u64,
+    fuel: u64,
+    disagreements: Vec<String>,
+    oracle_fail: Vec<String>,
+    samples: Vec<String>,
+    kinds: std::collections::BTreeMap<String, u64>,
+    log: std::fs::File,
+}
+
+impl Ctx {
+    fn chain(&mut self, s: &str) {
+        let c: u64 = s.parse().unwrap_or(u64::MAX);
+        if c > self.max_chain { self.max_chain = c; }
+    }
+
+    /// model of `EndemicOTReceiver::new`, compared with the real message 1 and choice bits
+    fn check_recv_new(&mut self, tag: &str, tape: &RecvTape, sid: &[u8]) -> Vec<u8> {
+        let (recv, msg1) = real_recv_new(self.seed, tape, sid);
+        let hook_bits = receiver_choice_bits(&recv);
+        if hook_bits != tape.bits {
+            self.disagreements.push(format!("{tag} recv_new: replayed choice bits differ from the receiver state (rng replay order)"));
+        }
+        let ros: Vec<String> = tape.ros.iter().map(point_hex).collect();
+        let m = self.drv.run_with("c05.recv_new", &[hx(sid), hx(&tape.bits), scalars(&tape.tas), ros.join(",")], &mut extra_oracle);
+        self.n_eval += 1;
+        match m {
+            Ok(v) if v.len() == 3 => {
+                let mm = unitems(&v[0]);
+                if mm != msg1 {
+                    self.disagreements.push(format!("{tag} recv_new msg1 sid={}: {}", hx(sid), first_diff(&msg1, &mm, PB)));
+                }
+                self.chain(&v[1]);
+                self.fuel = v[2].parse().unwrap_or(0);
+            }
+            other => self.disagreements.push(format!("{tag} recv_new: model failed {:?}", other.map(|v| v.len()))),
+        }
+        writeln!(self.log, "{tag} recv_new sid={} stream={} bits={} msg1[0]={} msg1[511]={}", hx(sid), tape.stream, hx(&tape.bits),
+            hx(&msg1[..PB]), hx(&msg1[511 * PB..])).unwrap();
+        msg1
+    }
+
+    /// model of `EndemicOTSender::process`, compared with the real message 2, verdict and keys
+    fn check_send(&mut self, tag: &str, stream: &str, sid: &[u8], msg1: &[u8]) -> SendRes {
+        let real = real_send(self.seed, stream, sid, msg1);
+        let tbs = send_tape(self.seed, stream);
+        let m = self.drv.run_with("c05.send", &[hx(sid), items(msg1, PB), scalars(&tbs)], &mut extra_oracle);
+        self.n_eval += 1;
+        match m {
+            Ok(v) if v.len() == 4 => {
+                let mm = unitems(&v[0]);
+                if mm != real.msg2 {
+                    self.disagreements.push(format!("{tag} send msg2 sid={}: {}", hx(sid), first_diff(&real.msg2, &mm, PB)));
+                }
+                if v[1] != real.verdict {
+                    self.disagreements.push(format!("{tag} send verdict sid={}: impl {} model {}", hx(sid), real.verdict, v[1]));
+                } else if real.verdict == "ok" {
+                    let ik: Vec<u8> = real.keys.iter().flat_map(|p| [p[0], p[1]].concat()).collect();
+                    let mk = unitems(&v[2]);
+                    if ik != mk {
+                        self.disagreements.push(format!("{tag} send keys sid={}: {}", hx(sid), first_diff(&ik, &mk, 32)));
+                    }
+                }
+                self.chain(&v[3]);
+            }
+            other => self.disagreements.push(format!("{tag} send: model failed {:?}", other.map(|v| v.len()))),
+        }
+        writeln!(self.log, "{tag} send sid={} stream={} verdict={} msg2[0]={} keys[0]={}", hx(sid), stream, real.verdict, hx(&real.msg2[..PB]),
+            real.keys.first().map(|k| format!("{}/{}", hx(&k[0]), hx(&k[1]))).unwrap_or("-".into())).unwrap();
+        real
+    }
+
+    /// model of `EndemicOTReceiver::process`
+    fn check_recv_process(&mut self, tag: &str, tape: &RecvTape, sid: &[u8], msg2: &[u8]) -> RecvRes {
+        let real = real_recv_process(self.seed, tape, sid, msg2);
+        let m = self.drv.run_with("c05.recv_process", &[hx(&tape.bits), scalars(&tape.tas), items(msg2, PB)], &mut extra_oracle);
+        self.n_eval += 1;
+        match m {
+            Ok(v) if v.len() == 3 => {
+                if v[0] != real.verdict {
+                    self.disagreements.push(format!("{tag} recv_process verdict: impl {} model {}", real.verdict, v[0]));
+                } else if real.verdict == "ok" {
+                    if unhx(&v[1]) != real.bits {
+                        self.disagreements.push(format!("{tag} recv_process choice bits: impl {} model {}", hx(&real.bits), v[1]));
+                    }
+                    let ik: Vec<u8> = real.keys.iter().flat_map(|k| k.to_vec()).collect();
+                    let mk = unitems(&v[2]);
+                    if ik != mk {
+                        self.disagreements.push(format!("{tag} recv_process keys: {}", first_diff(&ik, &mk, 32)));
+                    }
+                }
+            }
+            other => self.disagreements.push(format!("{tag} recv_process: model failed {:?}", other.map(|v| v.len()))),
+        }
+        writeln!(self.log, "{tag} recv_process sid={} verdict={} keys[0]={}", hx(sid), real.verdict,
+            real.keys.first().map(|k| hx(k)).unwrap_or("-".into())).unwrap();
+        real
+    }
+
+    fn kind(&mut self, k: &str) {
+        *self.kinds.entry(k.to_string()).or_default() += 1;
+    }
+
+    /// property oracle, honest exchange: chosen key equal, other key different
+    fn oracle_honest(&mut self, input: &str, s: &SendRes, r: &RecvRes) {
+        if s.verdict != "ok" || r.verdict != "ok" {
+            self.oracle_fail.push(format!("honest exchange does not complete: sender {} receiver {}; {input}", s.verdict, r.verdict));
+            return;
+        }
+        for i in 0..N {
+            let c = bit(&r.bits, i) as usize;
+            if r.keys[i] != s.keys[i][c] {
+                self.oracle_fail.push(format!("honest exchange: receiver key {i} differs from the sender's key for choice bit {c}; {input}"));
+                return;
+            }
+            if r.keys[i] == s.keys[i][1 - c] {
+                self.oracle_fail.push(format!("honest exchange: receiver key {i} equals the sender's OTHER key; {input}"));
+                return;
+            }
+        }
+    }
+
+    /// property oracle, mismatched sessions / substituted message: no receiver key equals a sender key
+    fn oracle_unrelated(&mut self, what: &str, input: &str, s: &SendRes, r: &RecvRes) {
+        if s.verdict != "ok" || r.verdict != "ok" {
+            return; // a rejected exchange delivers no keys at all
+        }
+        for i in 0..N {
+            if r.keys[i] == s.keys[i][0] || r.keys[i] == s.keys[i][1] {
+                self.oracle_fail.push(format!("{what}: receiver key {i} equals a sender key ({}); {input}", hx(&r.keys[i])));
+                return;
+            }
+        }
+    }
+}
+
+pub fn run(kv: &Args) -> i32 {
+    let seed = kv.u64("seed", 1);
+    let out = kv.str("out", "/verif/build/run/C05");
+    std::fs::create_dir_all(&out).unwrap();
+    let n_cases = kv.u64("cases", if kv.thorough() { 104 } else { 6 }) as usize;
+    let mut cx = Ctx {
+        drv: Driver::spawn(),
+        seed,
+        n_eval: 0,
+        n_mut: 0,
+        max_chain: 0,
+        fuel: 0,
+        disagreements: vec![],
+        oracle_fail: vec![],
+        samples: vec![],
+        kinds: Default::default(),
+        log: std::fs::File::create(format!("{out}/cases.txt")).unwrap(),
+    };
+    let mut r = rng(seed, "c05");
+    for case in 0..n_cases {
+        // ---------------------------------------------------------------- session ids
+        let len = [0usize, 1, 32, 1000][case % 4];
+        let mut sid = vec![0u8; len];
+        r.fill_bytes(&mut sid);
+        // the other session id: same length & random / one bit flipped / one byte appended / last byte dropped
+        let sid2: Vec<u8> = match (case / 4) % 4 {
+            0 if len > 0 => loop {
+                let mut s = vec![0u8; len];
+                r.fill_bytes(&mut s);
+                if s != sid { break s; }
+            },
+            1 if len > 0 => {
+                let mut s = sid.clone();
+                let k = (r.next_u32() as usize) % (8 * len);
+                s[k / 8] ^= 1 << (k % 8);
+                s
+            }
+            3 if len > 0 => sid[..len - 1].to_vec(),
+            _ => {
+                let mut s = sid.clone();
+                s.push(if case % 8 < 4 { 0 } else { r.next_u32() as u8 });
+                s
+            }
+        };
+        let t_r = recv_tape(seed, &format!("c05-recv-{case}"));
+        let t_r2 = recv_tape(seed, &format!("c05-recv2-{case}"));
+        let s_s = format!("c05-send-{case}");
+        let s_s2 = format!("c05-send2-{case}");
+        let input = format!("seed={seed} case={case} sid={} sid2={} (tapes: util::rng(seed, c05-recv-{case} / c05-recv2-{case} / c05-send-{case} / c05-send2-{case}))",
+            hx(&sid), hx(&sid2));
+
+        // ---------------------------------------------------------------- A: honest exchange under sid
+        let tag = format!("case {case} honest");
+        let msg1 = cx.check_recv_new(&tag, &t_r, &sid);
+        let sa = cx.check_send(&tag, &s_s, &sid, &msg1);
+        let ra = cx.check_recv_process(&tag, &t_r, &sid, &sa.msg2);
+        cx.oracle_honest(&input, &sa, &ra);
+        cx.kind("honest");
+        if cx.samples.len() < 3 && ra.verdict == "ok" {
+            cx.samples.push(format!("case {case} honest sid_len={len}: choice bit0={} msg1[0][0]={} msg2[0][0]={} recv key0={} sender keys0={}/{}",
+                bit(&ra.bits, 0) as u8, hx(&msg1[..PB]), hx(&sa.msg2[..PB]), hx(&ra.keys[0]), hx(&sa.keys[0][0]), hx(&sa.keys[0][1])));
+        }
+
+        // ---------------------------------------------------------------- B: the sender runs under another session id
+        let tag = format!("case {case} sid-mismatch");
+        let sb = cx.check_send(&tag, &s_s, &sid2, &msg1);
+        let rb = cx.check_recv_process(&tag, &t_r, &sid, &sb.msg2);
+        cx.oracle_unrelated("sender and receiver under different session ids", &input, &sb, &rb);
+        cx.kind("sid-mismatch");
+        cx.n_mut += 1;
+        if cx.samples.len() < 4 && rb.verdict == "ok" {
+            cx.samples.push(format!("case {case} sid-mismatch (sid2 len {}): recv key0={} sender keys0={}/{}", sid2.len(), hx(&rb.keys[0]),
+                hx(&sb.keys[0][0]), hx(&sb.keys[0][1])));
+        }
+
+        // ---------------------------------------------------------------- C: message 1 recorded in session sid2 is given to the sender of session sid
+        let tag = format!("case {case} msg1-substituted");
+        let msg1_other = cx.check_recv_new(&tag, &t_r2, &sid2);
+        let sc = cx.check_send(&tag, &s_s, &sid, &msg1_other);
+        let rc = cx.check_recv_process(&tag, &t_r, &sid, &sc.msg2);
+        cx.oracle_unrelated("message 1 substituted from another session", &input, &sc, &rc);
+        cx.kind("msg1-substituted");
+        cx.n_mut += 1;
+
+        // ---------------------------------------------------------------- D: message 2 recorded in session sid2 is given to the receiver of session sid
+        let tag = format!("case {case} msg2-substituted");
+        let sd = cx.check_send(&tag, &s_s2, &sid2, &msg1_other);
+        let rd = cx.check_recv_process(&tag, &t_r, &sid, &sd.msg2);
+        // the keys the receiver derives must match neither the keys of its own session's sender (run A) ...
+        cx.oracle_unrelated("message 2 substituted from another session (vs own session's sender)", &input, &sa, &rd);
+        // ... nor those of the sender whose message it was
+        cx.oracle_unrelated("message 2 substituted from another session (vs the other session's sender)", &input, &sd, &rd);
+        cx.kind("msg2-substituted");
+        cx.n_mut += 1;
+
+        // ---------------------------------------------------------------- E: undecodable points in message 1
+        let n_e = if kv.thorough() { 3 } else { 2 };
+        for v in 0..n_e {
+            let sel = case * n_e + v;
+            let positions: Vec<usize> = match sel % 4 {
+                0 => vec![0],
+                1 => vec![255],
+                2 => vec![(r.next_u32() as usize) % N],
+                _ => (0..1 + (r.next_u32() as usize) % 5).map(|_| (r.next_u32() as usize) % N).collect(),
+            };
+            let mut m = msg1.clone();
+            let mut desc = vec![];
+            for p in &positions {
+                let side = (sel / 4 + desc.len()) % 2; // both sides at every kind of position
+                let pat = r.next_u32();
+                let b = undecodable(&mut r, pat);
+                m[(2 * p + side) * PB..(2 * p + side + 1) * PB].copy_from_slice(&b);
+                desc.push(format!("{p}.{side}={}", hx(&b)));
+            }
+            let tag = format!("case {case} msg1-undecodable[{}]", desc.join(" "));
+            let se = cx.check_send(&tag, &s_s, &sid, &m);
+            if se.verdict != "err1" {
+                cx.oracle_fail.push(format!("sender accepts message 1 with undecodable points ({}): verdict {}; {input}", desc.join(" "), se.verdict));
+            }
+            cx.kind("msg1-undecodable");
+            cx.n_mut += 1;
+        }
+        // ---------------------------------------------------------------- F: undecodable points in message 2
+        for v in 0..n_e + 1 {
+            let sel = case * (n_e + 1) + v;
+            let positions: Vec<usize> = match sel % 4 {
+                0 => vec![0],
+                1 => vec![255],
+                2 => vec![(r.next_u32() as usize) % N],
+                _ => (0..1 + (r.next_u32() as usize) % 5).map(|_| (r.next_u32() as usize) % N).collect(),
+            };
+            let mut m = sa.msg2.clone();
+            let mut desc = vec![];
+            let mut needed = false;
+            for p in &positions {
+                // alternate between the chosen side (needed by the receiver) and the side it never decodes
+                let chosen = bit(&t_r.bits, *p) as usize;
+                let side = if (sel + desc.len()) % 3 == 2 { 1 - chosen } else { chosen };
+                needed |= side == chosen;
+                let pat = r.next_u32();
+                let b = undecodable(&mut r, pat);
+                m[(2 * p + side) * PB..(2 * p + side + 1) * PB].copy_from_slice(&b);
+                desc.push(format!("{p}.{side}={}", hx(&b)));
+            }
+            let tag = format!("case {case} msg2-undecodable[{}]", desc.join(" "));
+            let rf = cx.check_recv_process(&tag, &t_r, &sid, &m);
+            let expect = if needed { "err1" } else { "ok" };
+            if rf.verdict != expect {
+                cx.oracle_fail.push(format!("receiver verdict {} on message 2 with undecodable points ({}), expected {expect}; {input}", rf.verdict, desc.join(" ")));
+            }
+            if !needed && rf.verdict == "ok" && rf.keys != ra.keys {
+                cx.oracle_fail.push(format!("receiver keys depend on the side it did not choose ({}); {input}", desc.join(" ")));
+            }
+            cx.kind(if needed { "msg2-undecodable-chosen" } else { "msg2-undecodable-unchosen" });
+            cx.n_mut += 1;
+        }
+        // ---------------------------------------------------------------- G: a point of message 1 replaced by another valid point
+        {
+            let p = [0usize, 255, (r.next_u32() as usize) % N][case % 3];
+            let side = (r.next_u32() % 2) as usize;
+            let pt = match case % 4 {
+                0 => ProjectivePoint::GENERATOR,
+                1 => ProjectivePoint::IDENTITY, // 33 zero bytes: accepted by decode_point
+                _ => ProjectivePoint::random(&mut r),
+            };
+            let mut m = msg1.clone();
+            m[(2 * p + side) * PB..(2 * p + side + 1) * PB].copy_from_slice(&pt.to_affine().to_bytes());
+            let tag = format!("case {case} msg1-point-replaced[{p}.{side}]");
+            let sg = cx.check_send(&tag, &s_s, &sid, &m);
+            let rg = cx.check_recv_process(&tag, &t_r, &sid, &sg.msg2);
+            if sg.verdict == "ok" && rg.verdict == "ok" {
+                // untouched instances still deliver the chosen key; the touched one delivers neither
+                for i in 0..N {
+                    let c = bit(&rg.bits, i) as usize;
+                    let same = rg.keys[i] == sg.keys[i][c];
+                    if (i != p && !same) || (i == p && (same || rg.keys[i] == sg.keys[i][1 - c])) {
+                        cx.oracle_fail.push(format!("message 1 with the point {p}.{side} replaced by {}: instance {i} chosen-key-equal={same}; {input}", point_hex(&pt)));
+                        break;
+                    }
+                }
+            }
+            cx.kind("msg1-point-replaced");
+            cx.n_mut += 1;
+        }
+    }
+    if cx.fuel == 0 || cx.max_chain >= cx.fuel {
+        cx.disagreements.push(format!("hash-to-curve retry chain of {} challenges reaches the model's fuel {}", cx.max_chain, cx.fuel));
+    }
+    let mut f = std::fs::File::create(format!("{out}/result.txt")).unwrap();
+    writeln!(f, "evaluations {}", cx.n_eval).unwrap();
+    writeln!(f, "mutations {}", cx.n_mut).unwrap();
+    writeln!(f, "oracle_queries {}", cx.drv.queries).unwrap();
+    writeln!(f, "max_retry_chain {}", cx.max_chain).unwrap();
+    writeln!(f, "tapes {}", n_cases).unwrap();
+    for (k, v) in &cx.kinds { writeln!(f, "kind {k} {v}").unwrap(); }
+    for s in &cx.samples { writeln!(f, "SAMPLE {s}").unwrap(); }
+    for d in &cx.disagreements { writeln!(f, "DISAGREE {d}").unwrap(); }
+    for d in &cx.oracle_fail { writeln!(f, "ORACLE {d}").unwrap(); }
+    0
 }
